@@ -1,23 +1,237 @@
+// Package c14: correspondence harness for property C14 (name order, equality, prefix, hash, URI).
 package c14
 
 import (
+	"fmt"
 	"strconv"
+	"strings"
 	"testing"
 
 	enc "github.com/named-data/ndnd/std/encoding"
 	"verif/harness/common"
 )
 
+var compTypes = []uint64{8, 8, 8, 8, 1, 2, 9, 32, 0x32, 0x34, 0x36, 0x38, 0x3a, 7, 252, 253, 255, 256, 65535, 65536, 1 << 32, 0}
+
+var specials = []string{"", ".", "..", "...", "%", "=", "/", "\\", "a=b", "%41", "a/b", "~-_.", " ", "\x00", "\xff", "\x80\xfe", "é", "A", "z9"}
+
+func genValue(r *common.Rand, g *common.Gen) []byte {
+	switch k := r.Intn(20); {
+	case k < 8:
+		g.Stat("val-short")
+		return []byte(common.Pick(r, []string{"a", "b", "ab", "aa", "ba", "abc"}))
+	case k < 11:
+		g.Stat("val-special")
+		return []byte(common.Pick(r, specials))
+	case k < 13:
+		g.Stat("val-anybyte")
+		return r.Bytes(r.Range(0, 4))
+	case k < 15:
+		g.Stat("val-number")
+		return enc.Nat(common.Pick(r, []uint64{0, 1, 255, 256, 65535, 65536, 1<<32 - 1, 1 << 32, 1<<64 - 1, r.U64()})).Bytes()
+	case k < 16:
+		g.Stat("val-number-nonshortest")
+		return common.Pick(r, [][]byte{{0, 1}, {0, 0, 1}, {0, 0, 0, 5}, {1, 2, 3}, {}, {0, 0, 0, 0, 0, 0, 0, 0, 7}, {1, 0, 0, 0, 0, 0, 0, 0, 0}})
+	case k < 17:
+		if r.Chance(1, 4) {
+			g.Stat("val-boundary-len")
+			return r.Bytes(common.Pick(r, []int{251, 252, 253, 254, 255, 256, 257, 300}))
+		}
+		fallthrough
+	case k < 18:
+		if r.Chance(1, 60) {
+			g.Stat("val-huge-len")
+			return r.Bytes(common.Pick(r, []int{65535, 65536, 65537}))
+		}
+		fallthrough
+	default:
+		g.Stat("val-all-bytes")
+		b := make([]byte, 0, 8)
+		start := r.Intn(256)
+		for i := 0; i < 8; i++ {
+			b = append(b, byte(start+i))
+		}
+		return b
+	}
+}
+
+func genName(r *common.Rand, g *common.Gen) enc.Name {
+	d := common.Pick(r, []int{0, 1, 1, 2, 2, 2, 3, 3, 4, 6})
+	n := make(enc.Name, 0, d)
+	for i := 0; i < d; i++ {
+		n = append(n, enc.Component{Typ: enc.TLNum(common.Pick(r, compTypes)), Val: genValue(r, g)})
+	}
+	return n
+}
+
+// close variant of a name: differs in one byte / one length / one type / is a prefix / extension / equal
+func variant(r *common.Rand, g *common.Gen, a enc.Name) enc.Name {
+	b := a.Clone()
+	switch r.Intn(8) {
+	case 0:
+		g.Stat("pair-equal")
+		return b
+	case 1:
+		g.Stat("pair-prefix")
+		return b[:r.Intn(len(b)+1)]
+	case 2:
+		g.Stat("pair-extension")
+		return append(b, enc.Component{Typ: enc.TLNum(common.Pick(r, compTypes)), Val: genValue(r, g)})
+	case 3:
+		if len(b) > 0 {
+			g.Stat("pair-one-type")
+			i := r.Intn(len(b))
+			b[i].Typ = enc.TLNum(common.Pick(r, compTypes))
+		}
+		return b
+	case 4:
+		if len(b) > 0 {
+			i := r.Intn(len(b))
+			if len(b[i].Val) > 0 {
+				g.Stat("pair-one-byte")
+				j := r.Intn(len(b[i].Val))
+				b[i].Val[j] ^= byte(1 << r.Intn(8))
+			}
+		}
+		return b
+	case 5:
+		if len(b) > 0 {
+			g.Stat("pair-one-length")
+			i := r.Intn(len(b))
+			if r.Chance(1, 2) || len(b[i].Val) == 0 {
+				b[i].Val = append(b[i].Val, byte(r.Intn(256)))
+			} else {
+				b[i].Val = b[i].Val[:len(b[i].Val)-1]
+			}
+		}
+		return b
+	case 6:
+		// split / merge components (same bytes, different structure)
+		if len(b) > 0 {
+			i := r.Intn(len(b))
+			if len(b[i].Val) >= 2 {
+				g.Stat("pair-split-component")
+				k := r.Range(1, len(b[i].Val)-1)
+				c1 := enc.Component{Typ: b[i].Typ, Val: b[i].Val[:k]}
+				c2 := enc.Component{Typ: b[i].Typ, Val: b[i].Val[k:]}
+				out := append(enc.Name{}, b[:i]...)
+				out = append(out, c1, c2)
+				return append(out, b[i+1:]...)
+			}
+		}
+		return b
+	default:
+		g.Stat("pair-independent")
+		return genName(r, g)
+	}
+}
+
+var uriSeeds = []string{
+	"", "/", "//", "///", "a", "/a", "/a/", "/a//", "//a", "/a/b", "=abc", "/=abc", "=", "/=", "==", "a==b", "a=b=c",
+	"8=abc", "9=abc", "0=a", "65535=a", "65536=a", "18446744073709551615=a", "18446744073709551616=a", "-1=a", "+1=a", "1_0=a",
+	"seg=1", "seg=", "seg=1x", "seg=01", "seg=18446744073709551615", "seg=18446744073709551616", "seg=-1", "v=0", "t=5", "off=256", "seq=65536",
+	"sha256digest=00ff", "sha256digest=0", "sha256digest=zz", "sha256digest=", "params-sha256=AbCd", "foo=bar", "Seg=1", "v1=2",
+	"%", "%4", "%41", "%zz", "a%", "a%4", "a%41b", "%00", "%fF", "%%41", "a\\b", "\\", "a b", "\xff\xfe", "é", "a%C3%A9", ".", "..", "...", "/./../...",
+	"/a/b/", "/a//b", "a/=b", "/8=a/32=b/seg=3", "/localhost/nfd", "32=", "/32=/", "/8=/", "8=", "/1=abc", "1=abcd", "2=00", "50=7", "54=7",
+}
+
+func genString(r *common.Rand, g *common.Gen) string {
+	switch r.Intn(4) {
+	case 0:
+		g.Stat("str-seed")
+		return common.Pick(r, uriSeeds)
+	case 1:
+		g.Stat("str-rendered-mutated")
+		s := genName(r, g).String()
+		if len(s) > 2000 {
+			s = s[:2000]
+		}
+		b := []byte(s)
+		for k := r.Range(1, 3); k > 0; k-- {
+			ins := common.Pick(r, []string{"=", "%", "/", "\\", "%4", "%G1", "//", "seg=", "8=", "=", "\x80", "0"})
+			i := r.Intn(len(b) + 1)
+			if r.Chance(1, 3) && len(b) > 0 {
+				i = r.Intn(len(b))
+				b = append(b[:i:i], b[i+1:]...) // delete one byte
+			} else {
+				b = append(b[:i:i], append([]byte(ins), b[i:]...)...)
+			}
+		}
+		return string(b)
+	case 2:
+		g.Stat("str-seed-joined")
+		return common.Pick(r, uriSeeds) + "/" + common.Pick(r, uriSeeds)
+	default:
+		g.Stat("str-random-ascii")
+		alphabet := "ab=/%\\.019sevgtq-_~AF"
+		n := r.Range(0, 12)
+		var sb strings.Builder
+		for i := 0; i < n; i++ {
+			sb.WriteByte(alphabet[r.Intn(len(alphabet))])
+		}
+		return sb.String()
+	}
+}
+
 func gen(g *common.Gen) {
-	u := common.NameUniverse{Alphabet: []string{"a", "b", "ab"}, MaxDepth: 3}
+	r := g.R
 	for i := 0; i < g.N; i++ {
 		g.Op("new")
-		for k := 0; k < 8; k++ {
-			a, b := u.Draw(g.R), u.Draw(g.R)
-			g.Op("cmp %s %s", common.NameText(a), common.NameText(b))
-			g.Stat("cmp")
+		for k := 0; k < 4; k++ {
+			a := genName(r, g)
+			b := variant(r, g, a)
+			c := variant(r, g, b)
+			at, bt, ct := common.NameText(a), common.NameText(b), common.NameText(c)
+			for _, p := range [][2]string{{at, bt}, {bt, at}, {bt, ct}, {at, ct}, {at, at}} {
+				g.Op("cmp %s %s", p[0], p[1])
+			}
+			g.Op("eq %s %s", at, bt)
+			g.Op("eq %s %s", bt, ct)
+			g.Op("pfx %s %s", at, bt)
+			g.Op("pfx %s %s", bt, at)
+			g.Op("pfx %s %s", bt, ct)
+			g.Op("rt %s", at)
+			g.Op("rt %s", bt)
+			g.Op("rt %s", ct)
+			g.Op("h %s", at)
+			g.Op("h %s", bt)
+			g.Op("h %s", common.NameText(a.Clone()))
+			g.Op("ph %s", ct)
+			// Component.String builds its result by repeated string concatenation (quadratic): keep
+			// the 64 KiB values out of the URI operations so the quick tier stays quick
+			if a.EncodingLength() < 5000 && b.EncodingLength() < 5000 {
+				g.Op("str %s", at)
+				g.Op("urt %s", at)
+				g.Op("urt %s", bt)
+			}
+			if len(a) > 0 && a.EncodingLength() < 5000 {
+				g.Op("crt %s", common.CompText(a[r.Intn(len(a))]))
+				g.Op("canon %s", common.CompText(a[r.Intn(len(a))]))
+			}
+			// decoders on well-formed encodings of other values (byte-level robustness of the decoders
+			// against malformed input is property C04's subject, not C14's)
+			g.Op("dec %s", common.Hex(b.Bytes()))
+			if len(b) > 0 {
+				g.Op("cdec %s", common.Hex(b[0].Bytes()))
+			}
+			g.Stat("name-triples")
+		}
+		for k := 0; k < 6; k++ {
+			s := genString(r, g)
+			g.Op("parse %s", common.Hex([]byte(s)))
+			if !strings.Contains(s, "/") {
+				g.Op("cparse %s", common.Hex([]byte(s)))
+			}
 		}
 	}
+}
+
+func hashList(hs []uint64) string {
+	parts := make([]string, len(hs))
+	for i, h := range hs {
+		parts[i] = strconv.FormatUint(h, 16)
+	}
+	return strings.Join(parts, ",")
 }
 
 func exec(op string) string {
@@ -28,8 +242,74 @@ func exec(op string) string {
 	case "cmp":
 		a, b := common.ParseNameText(f[1]), common.ParseNameText(f[2])
 		return strconv.Itoa(a.Compare(b))
+	case "eq":
+		a, b := common.ParseNameText(f[1]), common.ParseNameText(f[2])
+		return strconv.FormatBool(a.Equal(b))
+	case "pfx":
+		a, b := common.ParseNameText(f[1]), common.ParseNameText(f[2])
+		return strconv.FormatBool(a.IsPrefix(b))
+	case "rt":
+		a := common.ParseNameText(f[1])
+		e := a.Bytes()
+		n, err := enc.NameFromBytes(e)
+		if err != nil {
+			return common.Hex(e) + " err"
+		}
+		return common.Hex(e) + " " + common.NameText(n)
+	case "crt":
+		c := common.ParseCompText(f[1])
+		e := c.Bytes()
+		d, err := enc.ComponentFromBytes(e)
+		if err != nil {
+			return common.Hex(e) + " err"
+		}
+		return common.Hex(e) + " " + common.CompText(d)
+	case "dec":
+		n, err := enc.NameFromBytes(common.UnHex(f[1]))
+		if err != nil {
+			return "err"
+		}
+		return common.NameText(n)
+	case "cdec":
+		c, err := enc.ComponentFromBytes(common.UnHex(f[1]))
+		if err != nil {
+			return "err"
+		}
+		return common.CompText(c)
+	case "str":
+		return common.Hex([]byte(common.ParseNameText(f[1]).String()))
+	case "canon":
+		return common.Hex([]byte(common.ParseCompText(f[1]).CanonicalString()))
+	case "urt":
+		s := common.ParseNameText(f[1]).String()
+		n, err := enc.NameFromStr(s)
+		if err != nil {
+			return common.Hex([]byte(s)) + " err"
+		}
+		return common.Hex([]byte(s)) + " " + common.NameText(n)
+	case "parse":
+		n, err := enc.NameFromStr(string(common.UnHex(f[1])))
+		if err != nil {
+			return "err"
+		}
+		return common.NameText(n)
+	case "cparse":
+		c, err := enc.ComponentFromStr(string(common.UnHex(f[1])))
+		if err != nil {
+			return "err"
+		}
+		return common.CompText(c)
+	case "h":
+		return fmt.Sprintf("%x", common.ParseNameText(f[1]).Hash())
+	case "ph":
+		n := common.ParseNameText(f[1])
+		ph := n.PrefixHash()
+		hs := make([]uint64, len(n)+1)
+		for i := 0; i <= len(n); i++ {
+			hs[i] = n[:i].Hash()
+		}
+		return hashList(ph) + " " + hashList(hs)
 	}
-	_ = enc.Name{}
 	return "bad-op"
 }
 
